@@ -19,7 +19,19 @@ use crate::rng::Rng;
 pub const FAILURES: &[&str] = &["missing_file", "syntax_error_at_depth", "undetectable", "value_target_refuses", "second_document_for_toml", "second_use_of_stdin", "directory"];
 
 /// A translatable JSON input of roughly `size` bytes (one or more documents).
+/// Sizes from this value up mean "exactly (size - EXACT_DOCS) small documents".
+pub const EXACT_DOCS: usize = 1_000_000_000;
+
 fn good_input(size: usize, rng: &mut Rng, single_doc: bool) -> Vec<u8> {
+    if size >= EXACT_DOCS && !single_doc {
+        // an exact number of one-line documents (round numbers: anything done "every N documents" shows here)
+        let mut s = String::new();
+        for i in 0..size - EXACT_DOCS {
+            s.push_str(&format!("{{\"n\":{}}}\n", (i as u64 + rng.next() % 7) % 1000));
+        }
+        return s.into_bytes();
+    }
+    let size = if size >= EXACT_DOCS { 200 } else { size };
     if size <= 8 {
         return b"[1]\n".to_vec();
     }
@@ -280,7 +292,13 @@ pub fn run(ctx: &Ctx) -> i32 {
         let to = ALL[i % 4];
         let n_in = rng.range(1, 6);
         let big_ok = i % 40 == 0;
-        let sizes: Vec<usize> = (0..n_in).map(|_| *rng.pick(if big_ok { &[5usize, 200, 8190, 70000, 1 << 20, 4 << 20][..] } else { &[5usize, 5, 200, 200, 3000, 8150, 8200, 70000][..] })).collect();
+        let mut sizes: Vec<usize> = (0..n_in).map(|_| *rng.pick(if big_ok { &[5usize, 200, 8190, 70000, 1 << 20, 4 << 20][..] } else { &[5usize, 5, 200, 200, 3000, 8150, 8200, 70000][..] })).collect();
+        if i % 5 == 2 {
+            // one input holds an exact, round number of documents
+            let at = rng.below(n_in);
+            sizes[at] = EXACT_DOCS + *rng.pick(&[256usize, 512, 1000, 1023, 1024, 1025, 2048, 3072, 4096, 8192, 10000, 16384]);
+            acc.count("inputs_with_an_exact_round_number_of_documents");
+        }
         // failing position: every position in turn, or none
         let fail_at = if i % 7 == 6 { None } else { Some((i / 4) % n_in) };
         let failure = FAILURES[(i / 28) % FAILURES.len()];
@@ -289,9 +307,9 @@ pub fn run(ctx: &Ctx) -> i32 {
         acc.sample_every(149, || case.json());
         judge(&case, acc);
     });
-    let rule = format!("{} invocations: 1-6 inputs with sizes from 5 B to 4 MiB (mostly below the 8 KiB stdout buffer, some straddling it, some far above), the failing input at every position in turn (or none), failure kinds {:?}, all four targets, stdout a pipe or a file, some inputs through standard input, some zero-length or blank files, one name in six not valid UTF-8; every second small input is a generated document in a random source format and spelling (named by its extension) whose last value is an empty string, an empty collection or another value that serializers finish with an unusual final write, delivered as a regular file, on standard input (format detected) or through a FIFO (named with or without its extension); expectation computed with the library; distinct non-trivial = distinct invocations", n, FAILURES);
+    let rule = format!("{} invocations: 1-6 inputs with sizes from 5 B to 4 MiB (mostly below the 8 KiB stdout buffer, some straddling it, some far above), the failing input at every position in turn (or none), failure kinds {:?}, all four targets, stdout a pipe or a file, some inputs through standard input, some zero-length or blank files, one invocation in five with an input of exactly 256 / 512 / 1000 / 1023 / 1024 / 1025 / 2048 / 3072 / 4096 / 8192 / 10000 / 16384 one-line documents, one name in six not valid UTF-8; every second small input is a generated document in a random source format and spelling (named by its extension) whose last value is an empty string, an empty collection or another value that serializers finish with an unusual final write, delivered as a regular file, on standard input (format detected) or through a FIFO (named with or without its extension); expectation computed with the library; distinct non-trivial = distinct invocations", n, FAILURES);
     ev::finish(
-        Finish { ctx, level: "fault_enumeration", rule, assumptions: vec!["how much of the FAILING input's own partial output reaches stdout is left open (anything between nothing and all of it)".into()], extra: serde_json::Map::new(), exhaustive: false, min_distinct: 300, must_reach: vec![("failures_with_earlier_output_below_buffer_size".into(), 100), ("expected_exit_0".into(), 50), ("failing_position_0".into(), 20), ("failing_position_3".into(), 20), ("generated_input_msgpack".into(), 30), ("generated_input_yaml".into(), 30), ("generated_input_json".into(), 30), ("generated_input_on_stdin".into(), 20), ("zero_length_or_blank_input".into(), 50), ("input_names_not_utf8".into(), 100), ("generated_input_through_fifo".into(), 30)] },
+        Finish { ctx, level: "fault_enumeration", rule, assumptions: vec!["how much of the FAILING input's own partial output reaches stdout is left open (anything between nothing and all of it)".into()], extra: serde_json::Map::new(), exhaustive: false, min_distinct: 300, must_reach: vec![("failures_with_earlier_output_below_buffer_size".into(), 100), ("expected_exit_0".into(), 50), ("failing_position_0".into(), 20), ("failing_position_3".into(), 20), ("generated_input_msgpack".into(), 30), ("generated_input_yaml".into(), 30), ("generated_input_json".into(), 30), ("generated_input_on_stdin".into(), 20), ("zero_length_or_blank_input".into(), 50), ("input_names_not_utf8".into(), 100), ("generated_input_through_fifo".into(), 30), ("inputs_with_an_exact_round_number_of_documents".into(), 100)] },
         acc,
     )
 }
